@@ -139,6 +139,21 @@ static void exec(vh::Rng & r, vh::Out & out)
   int len = (int)r.range(1, 8);
   for (int s = 0; s < len; ++s) {
     int what = (int)r.range(0, 5);
+    if (r.coin(1, 6)) {
+      // continue on a copy, in whatever state the converter is (fresh, anchored, reset): copy construction, copy assignment onto a
+      // converter with another history, or relocation by a growing vector
+      int how = (int)r.range(0, 2);
+      if (how == 0) {std::unique_ptr<ENUConverter> cp(new ENUConverter(*c)); c = std::move(cp);} else if (how == 1) {
+        std::unique_ptr<ENUConverter> cp(r.coin() ? new ENUConverter() : new ENUConverter(geo(randomFrame(r))));
+        if (r.coin(1, 3)) {cp->reset();}
+        *cp = *c; c = std::move(cp);
+      } else {
+        std::vector<ENUConverter> v; v.push_back(*c);
+        for (int k = 0; k < 5; ++k) {v.push_back(ENUConverter());}
+        std::unique_ptr<ENUConverter> cp(new ENUConverter(v.front())); c = std::move(cp);
+      }
+      out.put(vh::Ev("copy").i("how", how).b("anch", c->isAnchored()));
+    }
     if (what == 0) {
       Frame prev = f; bool was = anchored;
       f = randomFrame(r);
